@@ -139,6 +139,10 @@ def build(cfg, sels, seed=0):
         elif v == "repeat":
             row["type"] = "select_one ${rq}"
             s.update(kind="repeat", inst="rp", vref="rq", lref="rq")
+        elif v == "search_after_modifier":
+            row.update(type=f"select_one {LN['M']}", appearance="minimal search('mfile')")
+            s.update(kind="inline", inst=LN["M"], items=[[r["name"], r["label"]] for r in lists[LN["M"]]])
+            search_lists.add(LN["M"])
         elif v == "search":
             row.update(type=f"select_one {LN['M']}", appearance="search('mfile')")
             s.update(kind="inline", inst=LN["M"], items=[[r["name"], r["label"]] for r in lists[LN["M"]]])
@@ -180,7 +184,7 @@ def build(cfg, sels, seed=0):
         sheets.append({"name": "settings", "header": ["allow_choice_duplicates"], "rows": [["yes"]]})
     src_csv = []
     if cfg["ext"] > 0:
-        eh = ["list_name", "name", "label", "state"] + (["county"] if cfg["ext"] == 4 else [])
+        eh = ["list name" if cfg["ext"] == 5 else "list_name", "name", "label", "state"] + (["county"] if cfg["ext"] == 4 else [])
         n = 1 if cfg["ext"] == 1 else 3
         erows = []
         for i in range(n):
